@@ -26,7 +26,8 @@ META = {
 def run(chk):
   chk.rule = ('cases = every (spec, value) cell, every ordered spec pair (is_compatible, extend) of the universes '
               'defined by grammar in ValueSpec.tla; distinct non-trivial = accepted cells + compatible pairs (a != b) + '
-              'successful extensions')
+              'successful extensions; traces_validated_against_impl = number of specs whose observed relation rows '
+              '(apply, default, is_compatible, extend) TLC validated against the laws')
   chk.assumptions += [
       'values that Python equates across types (True == 1 == 1.0) are don\'t-care cells of the reference',
       'regular-expression constraints are excluded from CompatSound / ExtendNarrow (as the statement says)',
